@@ -60,11 +60,24 @@ func (r *Registry) GetManifest(ctx context.Context, repoName string, dig ociregi
 }
 
 func (r *Registry) GetTag(ctx context.Context, repoName string, tagName string) (ociregistry.BlobReader, error) {
-	desc, err := r.ResolveTag(ctx, repoName, tagName)
+	// Resolve the tag and fetch the manifest in a single critical section,
+	// so that a concurrent retag-and-delete can't make a tag that always
+	// points at an existing manifest appear to be missing.
+	r.mu.Lock()
+	defer r.mu.Unlock()
+	repo, err := r.repo(repoName)
 	if err != nil {
 		return nil, err
 	}
-	return r.GetManifest(ctx, repoName, desc.Digest)
+	desc, ok := repo.tags[tagName]
+	if !ok {
+		return nil, ociregistry.ErrManifestUnknown
+	}
+	b, err := r.manifestForDigest(repoName, desc.Digest)
+	if err != nil {
+		return nil, err
+	}
+	return NewBytesReader(b.data, b.descriptor()), nil
 }
 
 func (r *Registry) ResolveTag(ctx context.Context, repoName string, tagName string) (ociregistry.Descriptor, error) {
